@@ -1,7 +1,9 @@
 import Driver.Util
 import Driver.Pipe
+import Driver.Sys
 namespace Driver.Reg.Sys
 def engines : List (String × IO UInt32) := [
-  ("pipe", Driver.runEngine Driver.Pipe.engine)
+  ("pipe", Driver.runEngine Driver.Pipe.engine),
+  ("sys", Driver.runEngine Driver.Sys.engine)
 ]
 end Driver.Reg.Sys
